@@ -136,6 +136,14 @@ def families(tier):
         main = list(pre) + [('stop', 'A', tmo)] + {'none': [], 'pause': [('pause',)], 'sleep': [('sleep', 0.15)]}[gap] + [('disp', 'A', 'Z', 'ff'), ('pause',), ('disp', 'A', 'Z2', 'ff'), ('sleep', 0.3)]
         out.append(dict(prop='C16', family='c16.dispatch_after_stop', id=f'c16/again-{sname}-t{tmo}-{gap}', cfg=cfg, params=dict(state=sname, tmo=tmo),
                         scn=dict(buses={b: {} for b in names}, order=names, handlers=hs2, main=main, actors=[], forwards=[], settle=1.5)))
+    # a handler of A hands a child to the idle, running bus B, lets 0-3 loop turns pass (B's queue.get() may have taken the child out while B's run
+    # loop has not looked at it yet, and cannot process it while A's handler holds the global lock), stops B, and then awaits the child
+    for k, tmo, order in itertools.product((0, 1, 2, 3), (None, 0), (['A', 'B'], ['B', 'A'])):
+        hs = [dict(bus='A', pat='P', name='hp', prog=[('disp', 'B', 'C', 'late')] + [('yield',)] * k + [('stop', 'B', tmo), ('await', 'C'), ('pause',)]),
+              dict(bus='B', pat='C', name='hcB', prog=[('ret', 1)]), dict(bus='B', pat='X', name='hxB', prog=[('ret', 0)])]
+        main = [('disp', 'B', 'X', 'await'), ('disp', 'A', 'P', 'ff'), ('pause',), ('sleep', 0.3)]
+        out.append(dict(prop='C16', family='c16.stop_other_bus_from_handler', id=f'c16/xstop-k{k}-t{tmo}-o{"".join(order)}', cfg=cfg, params=dict(state='xstop', tmo=tmo),
+                        scn=dict(buses={'A': {}, 'B': {}}, order=order, handlers=hs, main=main, actors=[], forwards=[], settle=1.5)))
     # stop() called again on a bus that was already stopped (teardown code typically does), with and without a positive timeout, while a backlog is left over
     for (sname, names, hs, pre), t1, t2, gap in itertools.product(_states(deep), (None, 0), (0.3, None, 0), ('pause', 'sleep')):
         if sname not in ('backlog3', 'paused', 'paused2', 'two_buses', 'awaiting_child_A'):
